@@ -38,6 +38,14 @@ pub fn map_case(cfg: &crate::gen::mapping::GenCfg) -> proptest::strategy::BoxedS
         .boxed()
 }
 
+/// "Tall" profile case: few classes with hundreds of member lines (see gen::mapping::tall_file).
+pub fn tall_case(cfg: &crate::gen::mapping::GenCfg) -> proptest::strategy::BoxedStrategy<MapCase> {
+    use proptest::prelude::*;
+    (crate::gen::mapping::tall_file(cfg, 400), crate::gen::mapping::render_cfg(), any::<u64>())
+        .prop_map(|(file, render, key)| MapCase { file, render, key })
+        .boxed()
+}
+
 /// Serialise a mapping with the current writer into an aligned buffer.
 pub fn write_cache(bytes: &[u8]) -> Result<AlignedBuf, Fail> {
     let r = guarded(|| {
